@@ -2,7 +2,7 @@ SPECIFICATION Spec
 CONSTANTS
   Owners <- MCOwners
   Kinds <- MCKinds
-  Rollback = FALSE
+  Rollback = "none"
   MaxFail = 2
 INVARIANT Inv_C12_InformerIffOwned
 INVARIANT Inv_C12_HandlersAttached
